@@ -770,7 +770,10 @@ fn push_prefix(
     let mut child = None;
     if let Some(node) = node {
         for it in &mut node.children {
-            if it.label == *label {
+            /* A compression pointer has 14 bits: names written beyond the first 16KiB of a
+             * message cannot be pointed at.
+             */
+            if it.label == *label && it.data < 0x4000 {
                 child = Some(&mut *it);
             }
         }
